@@ -633,6 +633,26 @@ def component_cases():
     cases.append(("Paragraph", lambda: (Paragraph(text), {}), None))
     cases.append(("LabeledParagraph", lambda: (LabeledParagraph("<c1>--label</c1>", text), {}), None))
     cases.append(("LabeledParagraph[unaligned]", lambda: (LabeledParagraph("label", text, 1, False), {}), None))
+    class AlignedParagraphs(object):
+        """labeled paragraphs that share one label alignment, rendered the way BlockLayout renders them: the alignment is
+        computed, then every paragraph is rendered - at an indentation of its own (the layout object itself is a one-shot
+        builder and not a component: it forgets its elements after rendering)"""
+
+        def __init__(self):
+            from clikit.ui.alignment import LabelAlignment
+            self.alignment = LabelAlignment()
+            self.paragraphs = [LabeledParagraph("<c1>--first</c1>", "The first option of the block"),
+                               LabeledParagraph("<c1>--second-and-longer</c1>", text)]
+            for p in self.paragraphs:
+                self.alignment.add(p, 2)
+                p.set_alignment(self.alignment)
+
+        def render(self, io, indentation=4):
+            self.alignment.align(io, indentation)
+            for p in self.paragraphs:
+                p.render(io, indentation + 2)
+
+    cases.append(("AlignedParagraphs[indented]", lambda: (AlignedParagraphs(), {}), None))
     cases.append(("EmptyLine", lambda: (EmptyLine(), {}), None))
     cases.append(("NameVersion", lambda: (NameVersion(_help_app().config), {}), None))
 
